@@ -97,7 +97,7 @@ type step struct {
 }
 
 func runCase(phase string, i int) worker.Result {
-	seed := evidence.New("C07", "exploration").Seed // cheap: reads env only
+	seed := evidence.Seed()
 	rng := evidence.RandFor(seed, "c07-"+phase, i)
 	var res worker.Result
 	n := 6 + rng.IntN(24)
